@@ -303,14 +303,19 @@ class Gaussian(Distribution):
            not hasattr(self.geometry, 'gradient'):
             raise NotImplementedError("Gradient not implemented for distribution {} with geometry {}".format(self,self.geometry))
 
+        # A precision given as a scalar or a vector is the diagonal of the precision matrix
+        prec = self.prec
+        if not spa.issparse(prec) and (prec.ndim == 1 or prec.shape[0] == 1):
+            prec = spa.diags(prec.ravel()*np.ones(self.dim))
+
         if not callable(self.mean): # for prior
-            return -( self.prec @ (val - self.mean).T )
+            return -( prec @ (val - self.mean).T )
         elif hasattr(self.mean, "gradient"): # for likelihood
             model = self.mean
             dev = val - model.forward(*args, **kwargs)
             if isinstance(dev, numbers.Number):
                 dev = np.array([dev])
-            return model.gradient(self.prec @ dev, *args, **kwargs)
+            return model.gradient(prec @ dev, *args, **kwargs)
         else:
             warnings.warn('Gradient not implemented for {}'.format(type(self.mean)))
 
